@@ -86,7 +86,16 @@ pub fn run(sc: &Value) -> Value {
                 let after = if dest.exists() { snapshot(&dest) } else { vec![] };
                 let diffs = diff_snapshots(&before, &after, false);
                 let wrong: Vec<&Value> = diffs.iter().filter(|d| d["field"] == "digest" || d["field"] == "len").collect();
-                let closed = arch.join(format!("{band_id}")).join("BANDTAIL").exists();
+                let tail_len = std::fs::metadata(arch.join(format!("{band_id}")).join("BANDTAIL")).map(|m| m.len() as i64).unwrap_or(-1);
+                let closed = tail_len > 0;
+                // what the version list is built from
+                let info = match Band::open(&archive, band_id).await {
+                    Ok(band) => match band.get_info().await {
+                        Ok(i) => json!({"ok": true, "is_closed": i.is_closed}),
+                        Err(e) => json!({"ok": false, "err": format!("{e}")}),
+                    },
+                    Err(e) => json!({"ok": false, "open_err": format!("{e}")}),
+                };
                 // the listing itself (an entry listed twice restores to the same tree and would otherwise go unnoticed)
                 let mut listing = Vec::new();
                 if let Ok(mut st) = archive.iter_entries(BandSelectionPolicy::Specified(band_id), Apath::root(), Exclude::nothing(), TestMonitor::arc()).await {
@@ -97,7 +106,7 @@ pub fn run(sc: &Value) -> Value {
                         }
                     }
                 }
-                versions.push(json!({"band": format!("{band_id}"), "closed": closed, "restore_ok": rr.is_ok(), "restore_errors": errs, "listing": listing,
+                versions.push(json!({"band": format!("{band_id}"), "closed": closed, "tail_len": tail_len, "info": info, "restore_ok": rr.is_ok(), "restore_errors": errs, "listing": listing,
                                      "wrong_content": wrong, "differences": diffs.len()}));
             }
             out["versions"] = json!(versions);
